@@ -105,6 +105,8 @@ struct Hist {
     /// try to install a set that lists one key twice (only possible on a broken tree); if the
     /// gateway takes it, that set becomes the set under test and weight is counted per distinct key
     dup_attempt: bool,
+    /// ledgers that pass after the set was installed (no rotation in between)
+    advance: u32,
 }
 
 struct Ctx {
@@ -155,11 +157,13 @@ impl C01 {
             ]);
         }
         let hists = [
-            Hist { retention: 0, rotations: 0, dup_attempt: false },
-            Hist { retention: 1, rotations: 1, dup_attempt: false },
-            Hist { retention: 0, rotations: 1, dup_attempt: false },
-            Hist { retention: 2, rotations: 3, dup_attempt: false },
-            Hist { retention: 2, rotations: 2, dup_attempt: false },
+            Hist { retention: 0, rotations: 0, dup_attempt: false, advance: 0 },
+            Hist { retention: 1, rotations: 1, dup_attempt: false, advance: 0 },
+            Hist { retention: 0, rotations: 1, dup_attempt: false, advance: 0 },
+            Hist { retention: 2, rotations: 3, dup_attempt: false, advance: 0 },
+            Hist { retention: 2, rotations: 2, dup_attempt: false, advance: 0 },
+            Hist { retention: 0, rotations: 0, dup_attempt: false, advance: 20 },
+            Hist { retention: 1, rotations: 1, dup_attempt: false, advance: 1000 },
         ];
         let mut cfgs = vec![];
         for s in &sets {
@@ -168,7 +172,7 @@ impl C01 {
                 cfgs.push((s.clone(), *h, hi == 0 || s.weights.len() <= 3));
             }
         }
-        cfgs.push((scfg(&[1], 1), Hist { retention: 0, rotations: 0, dup_attempt: true }, true));
+        cfgs.push((scfg(&[1], 1), Hist { retention: 0, rotations: 0, dup_attempt: true, advance: 0 }, true));
         C01 { cfgs, thorough }
     }
 
@@ -214,8 +218,8 @@ impl Scenario for C01 {
     fn config_label(&self, c: usize) -> String {
         let (s, h, full) = &self.cfgs[c];
         format!(
-            "weights {:?} threshold {} retention {} rotations-after {} full-alphabet {}",
-            s.weights, s.threshold, h.retention, h.rotations, full
+            "weights {:?} threshold {} retention {} rotations-after {} ledgers-after {} full-alphabet {}",
+            s.weights, s.threshold, h.retention, h.rotations, h.advance, full
         )
     }
     fn world<'a>(&self, ctx: &'a Ctx) -> &'a World {
@@ -250,6 +254,10 @@ impl Scenario for C01 {
             );
             assert!(call.ok, "setup rotation failed: {}", call.err);
             latest = next;
+        }
+        if h.advance > 0 {
+            w.set_seq(w.seq() + h.advance);
+            w.set_time(w.now() + 5 * h.advance as u64);
         }
         let retained = h.rotations as u64 <= h.retention;
         let mut set = set;
@@ -599,7 +607,7 @@ fn main() {
     main_for(|tier| {
         let s = C01::new(tier == "thorough");
         let mut o = Opts::new(tier, 1);
-        o.rule = "one submission from each base state; base states = 11 (quick) / 17 (thorough, adds 4-signer sets) signer configurations with boundary weights/thresholds x 5 histories (retention 0-2, 0-3 real rotations after the set under test). Per base state: EVERY vector of per-signer status from {unsigned, valid, other domain separator, other command kind, other batch, other signer-set hash, other key, bit-flipped R, bit-flipped s} (9^N on the fresh gateway, 3^N on the histories) through approve_messages and validate_proof; 10 tamperings of the declared set x {signatures over the true set's digest, over the tampered set's digest}; batches of 1, 2 and 2-with-duplicate-id, each also submitted with one field / one message changed relative to the signed batch. Oracle: independent predicate (set installed and retained, valid weight >= threshold) with independently recomputed digests".into();
+        o.rule = "one submission from each base state; base states = 11 (quick) / 17 (thorough, adds 4-signer sets) signer configurations with boundary weights/thresholds x 7 histories (retention 0-2, 0-3 real rotations after the set under test, 0 / 20 / 1000 ledgers passing). Per base state: EVERY vector of per-signer status from {unsigned, valid, other domain separator, other command kind, other batch, other signer-set hash, other key, bit-flipped R, bit-flipped s} (9^N on the fresh gateway, 3^N on the histories) through approve_messages and validate_proof; 10 tamperings of the declared set x {signatures over the true set's digest, over the tampered set's digest}; batches of 1, 2 and 2-with-duplicate-id, each also submitted with one field / one message changed relative to the signed batch. Oracle: independent predicate (set installed and retained, valid weight >= threshold) with independently recomputed digests".into();
         (s, o)
     });
 }
